@@ -136,8 +136,10 @@ class Check:
         if self.errors:
             for e in self.errors:
                 out.write('ANALYSIS-ERROR property=%s %s\n' % (self.pid, e))
-            out.flush()
-            return 2
+            if not new:
+                out.flush()
+                return 2
+            # a located violation is still reported when another part of the analysis lost its anchor
         for v in listed:
             out.write('KNOWN-FINDING: property=%s rule=%s instance=%s %s\n' % (self.pid, v['rule'], v['key'], v['what']))
         for v in new:
